@@ -241,7 +241,10 @@ type Env struct {
 	Mgr     *puppet.Manager
 	QS      *QSpec
 	Cfgs    map[int]*puppet.Configuration // by size: nodes 1..n
-	tok     uint64
+	// second, independent client of the same servers (own connections)
+	Mgr2  *puppet.Manager
+	Cfgs2 map[int]*puppet.Configuration
+	tok   uint64
 }
 
 // EnvOpts configures NewEnv.
@@ -251,6 +254,8 @@ type EnvOpts struct {
 	SrvOpts []gorums.ServerOption
 	// Down lists node ids that are not started.
 	Down map[int]bool
+	// TwoMgrs creates a second manager talking to the same servers.
+	TwoMgrs bool
 }
 
 // NewEnv starts the puppet servers and creates the manager and one
@@ -275,22 +280,36 @@ func NewEnv(tr *vtrace.Tracer, o EnvOpts) (*Env, error) {
 		gorums.WithDialTimeout(2 * time.Second),
 		gorums.WithGrpcDialOptions(grpc.WithTransportCredentials(insecure.NewCredentials()), grpc.WithBlock()),
 	}, o.MgrOpts...)
-	e.Mgr = puppet.NewManager(opts...)
-	all, err := e.Mgr.NewConfiguration(e.QS, gorums.WithNodeMap(idmap))
-	if err != nil {
+	mk := func() (*puppet.Manager, map[int]*puppet.Configuration, error) {
+		mgr := puppet.NewManager(opts...)
+		cfgs := map[int]*puppet.Configuration{}
+		all, err := mgr.NewConfiguration(e.QS, gorums.WithNodeMap(idmap))
+		if err != nil {
+			return nil, nil, err
+		}
+		cfgs[o.Nodes] = all
+		for n := 1; n < o.Nodes; n++ {
+			ids := make([]uint32, n)
+			for i := range ids {
+				ids[i] = uint32(i + 1)
+			}
+			c, err := mgr.NewConfiguration(e.QS, gorums.WithNodeIDs(ids))
+			if err != nil {
+				return nil, nil, err
+			}
+			cfgs[n] = c
+		}
+		return mgr, cfgs, nil
+	}
+	var err error
+	if e.Mgr, e.Cfgs, err = mk(); err != nil {
 		return nil, err
 	}
-	e.Cfgs[o.Nodes] = all
-	for n := 1; n < o.Nodes; n++ {
-		ids := make([]uint32, n)
-		for i := range ids {
-			ids[i] = uint32(i + 1)
-		}
-		c, err := e.Mgr.NewConfiguration(e.QS, gorums.WithNodeIDs(ids))
-		if err != nil {
+	if o.TwoMgrs {
+		if e.Mgr2, e.Cfgs2, err = mk(); err != nil {
 			return nil, err
 		}
-		e.Cfgs[n] = c
+		gorums.VerifSetNextMsgID(e.Mgr2.RawManager, 1<<40)
 	}
 	return e, nil
 }
@@ -314,6 +333,9 @@ func (e *Env) Node(id int) *puppet.Node {
 // Close closes the manager and stops the servers.
 func (e *Env) Close() {
 	e.Mgr.Close()
+	if e.Mgr2 != nil {
+		e.Mgr2.Close()
+	}
 	for _, s := range e.Servers {
 		s.Stop()
 	}
